@@ -52,6 +52,7 @@ def run_link(case):
     reads = [tuple(r) for r in case['reads']]
     gai = case['gai']
     counter = [0]
+    wraps = [0]
 
     class LinkSock(W.FakeSocket):
         def __init__(self, idx):
@@ -66,8 +67,12 @@ def run_link(case):
             self.connected = True
 
         def close(self):
-            if not self.connected:
-                world.log('S:close%d' % self.idx)
+            # closed inside `_connect()` (a candidate whose connect() failed; the repaired `_connect_proxy` / `_connect_sock`
+            # giving up on a socket): a socket-module call `S:close<i>`; closed by the session afterwards: `SC` as in world.py
+            if world.phase == 'connect' or not self.connected:
+                if not self.closed:
+                    self.closed = True
+                    world.log('S:close%d' % self.idx)
             else:
                 W.FakeSocket.close(self)
 
@@ -137,7 +142,9 @@ def run_link(case):
             return WebsocketSession._connect_sock(self, host, port, ssl)      # the real one
 
         def _wrap_socket(self, sock, host):
-            ok = bool(case['wrap'])
+            n = wraps[0]
+            wraps[0] += 1
+            ok = bool(case['wrap']) or n != case.get('wrap_fail_call', 0)
             world.log('P:T:%s:%d' % (_s(host), 1 if ok else 0))
             if not ok:
                 raise real_socket.error(1, 'simulated TLS failure' + W.HOSTILE)
@@ -179,6 +186,42 @@ def run_link_safe(case):
 
 
 # ---------------------------------------------------------------------------------------------
+# variant detection (finding D11): does the real `_connect_proxy` close its socket when the tunnel fails?
+
+_PCLOSE = None
+
+
+def proxy_closes_on_failure():
+    """Probe, as `world.bfinal_safe()` for D6: the real `_connect_proxy` against a proxy that answers 407.  The pinned code
+       raises ProxyFail and leaves the connected socket open (only garbage collection closes it); the repaired code calls
+       close() before the exception propagates.  The model driver is given the matching shape (`pclose=` of the `link` op)."""
+    global _PCLOSE
+    if _PCLOSE is None:
+        import lomond.session as S
+        from lomond.websocket import WebSocket
+        st = dict(closed=False)
+
+        class Sock(object):
+            def settimeout(self, t): pass
+            def setsockopt(self, *a): pass
+            def sendall(self, data): pass
+            def recv(self, n): return b'HTTP/1.1 407 Proxy Authentication Required\r\n\r\n'
+            def shutdown(self, how): pass
+            def close(self): st['closed'] = True
+
+        class Probe(S.WebsocketSession):
+            def _connect_sock(self, host, port, ssl=False):
+                return Sock()
+
+        try:
+            Probe(WebSocket('ws://example.com/', proxies={'http': 'http://proxy.example:3128'}))._connect_proxy('http://proxy.example:3128')
+        except Exception:  # noqa -- ProxyFail is the expected outcome
+            pass
+        _PCLOSE = st['closed']
+    return _PCLOSE
+
+
+# ---------------------------------------------------------------------------------------------
 # model line
 
 def link_line(case):
@@ -187,9 +230,9 @@ def link_line(case):
     assert core.startswith('core ')
     opt = lambda u: '-' if not u else u.encode('utf-8').hex()
     gai = case['gai']
-    head = 'link url=%s http=%s https=%s wrap=%d sel=%d gai=%s' % (
+    head = 'link url=%s http=%s https=%s wrap=%d sel=%d pclose=%d gai=%s' % (
         case['url'].encode('utf-8').hex(), opt(case.get('http')), opt(case.get('https')), 1 if case['wrap'] else 0,
-        0 if sc.conn == 'selfail' else 1, '-' if gai is None else ','.join(gai))
+        0 if sc.conn == 'selfail' else 1, 1 if proxy_closes_on_failure() else 0, '-' if gai is None else ','.join(gai))
     rd = ' '.join('x' if r[0] == 'x' else 't' if r[0] == 't' else 'd' + r[1] for r in case['reads'])
     return head + ' | ' + rd + ' | ' + core[5:]
 
@@ -324,13 +367,88 @@ def oracle(case, trace):
     return None
 
 
-# ---------------------------------------------------------------------------------------------
-# the stream used by props/c19.py (mode 'proxy') and props/c09.py (mode 'direct')
+def oracle_closed(case, trace):
+    """C09, "... It produces ConnectFail before the connection is up ... and the socket is closed": when the terminal
+       ConnectFail is delivered, every socket object the connection phase had created - in particular the one that had
+       connected successfully, to the proxy or to an address of the target - has been closed (`S:close<i>` inside `_connect()`,
+       `SC` by the session afterwards).  Garbage collection closing it later does not count: the generator is suspended at
+       `yield ConnectFail` with the exception (and through its traceback the frame that holds the socket) still alive.
+       returns None or (cls, what)"""
+    tk = trace.split(' ')
+    gai = case['gai']
+    p = next((i for i, t in enumerate(tk) if t.startswith('E:connect_fail')), None)
+    if p is None or gai is None:
+        return None
+    before = tk[:p]
+    for t in before:
+        if not t.startswith('S:socket'):
+            continue
+        i = int(t[8:])
+        if gai[i] == 'sfail':
+            continue                                  # socket() raised: there is no object
+        connected = ('S:connect%d' % i) in before and gai[i] == 'ok'
+        closed = ('S:close%d' % i) in before or (connected and 'SC' in before)
+        if not closed:
+            if connected:
+                return ('socket-left-open', 'ConnectFail (%s) is delivered while the socket of address %d, which had connected, is still open: '
+                        'nothing closed it between its connect() and the event' % (tk[p], i))
+            return ('socket-left-open-unconnected', 'ConnectFail (%s) is delivered while the socket created for address %d is still open' % (tk[p], i))
+    return None
 
-def explore_stream(res, rng, mode, n, model_ok, pid):
-    """n composed connections: real run vs `link` op of the model (diffs) + the oracle above (failures)"""
+
+def d11_cases():
+    """finding D11, one hand-made connection per failure class of the tunnel after the TCP connect to the proxy succeeded"""
+    from world import Scenario
+    out = []
+
+    def mk(name, url='ws://example.com/chat', reads=None, wfail=(), wrap=True, gai=('ok',)):
+        sc = Scenario([], url=url, wfail=set(wfail))
+        secure = url.startswith('wss')
+        c = dict(url=url, http=None, https=None, wrap=wrap, reads=reads or [], gai=list(gai), name='d11:' + name,
+                 sc=coreutil.scenario_to_json(sc))
+        c['https' if secure else 'http'] = 'http://proxy.example:3128'
+        out.append(c)
+    d = lambda b: ['d', b.hex()]
+    mk('status-407', reads=[d(b'HTTP/1.1 407 Proxy Authentication Required\r\n\r\n')])
+    mk('recv-error', reads=[d(b'HTTP/1.1 2'), ['x']])
+    mk('recv-timeout', reads=[d(b'HTTP/1.1 200 OK\r\n'), ['t']])
+    mk('eof-before-header-end', reads=[d(b'HTTP/1.1 200 OK\r\n'), d(b'')])
+    mk('oversize-reply', reads=[d(b'HTTP/1.1 200 OK\r\nX: ' + b'a' * 1000) for _ in range(18)])
+    mk('connect-sendall-fails', wfail=(0,))
+    mk('tls-wrap-fails', url='wss://example.com/chat', reads=[d(OK200)], wrap=False)
+    mk('second-address-connects-407', reads=[d(b'HTTP/1.1 407 No\r\n\r\n')], gai=('cfail', 'ok'))
+    return out
+
+
+def gen_wss_direct_case(rng):
+    """oracle-only (the composed model does not log the per-candidate TLS wrap of `_connect_sock(ssl=True)`): a direct wss://
+       connection whose k-th `_wrap_socket` call raises"""
+    case = gen_link_case(rng, 'direct')
+    sc = coreutil.scenario_from_json(case['sc'])
+    sc.url = 'wss://' + sc.url[len('ws://'):]
+    case['url'] = sc.url
+    case['http'] = case['https'] = None
+    case['sc'] = coreutil.scenario_to_json(sc)
+    case['gai'] = gen_gai(rng, want_ok=True)
+    n_wraps = sum(1 for o in case['gai'] if o != 'sfail')
+    case['wrap'] = rng.random() < 0.3
+    case['wrap_fail_call'] = rng.randrange(max(n_wraps, 1))
+    case['name'] = 'direct-wss:' + ('wrap-ok' if case['wrap'] else 'wrap-fails')
+    return case
+
+
+# ---------------------------------------------------------------------------------------------
+# the stream used by props/c19.py (mode 'proxy') and props/c09.py (modes 'direct', 'proxy', 'direct-wss')
+
+def explore_stream(res, rng, mode, n, model_ok, pid, judge_close=False):
+    """n composed connections: real run vs `link` op of the model (diffs) + the oracles above (failures).
+       `judge_close` (C09): also the socket-is-closed-at-ConnectFail oracle.  Mode 'direct-wss' is oracle-only."""
     import runner
-    cases = [gen_link_case(rng, mode) for _ in range(n)]
+    if mode == 'direct-wss':
+        model_ok = False
+        cases = [gen_wss_direct_case(rng) for _ in range(n)]
+    else:
+        cases = [gen_link_case(rng, mode) for _ in range(n)]
     reals = runner.parallel_map('linkworld', 'run_link_safe', cases, chunk=25)
     lines, idx = [], []
     for i, (case, r) in enumerate(zip(cases, reals)):
@@ -350,13 +468,20 @@ def explore_stream(res, rng, mode, n, model_ok, pid):
         res.count('link:connected' if up else 'link:not-connected')
         if any(t.startswith('S:close') for t in tk):
             res.count('link:address-retried')
-        v = oracle(case, r)
+        v = oracle(case, r) if mode != 'direct-wss' else None
+        if mode == 'direct-wss' and any(t.startswith('ESCAPED:') for t in tk):
+            v = ('escaped', 'an exception left the event iterator: %s' % [t for t in tk if t.startswith('ESCAPED:')])
+        if not v and judge_close:
+            v = oracle_closed(case, r)
+            if any(t.startswith('E:connect_fail') for t in tk):
+                res.count('link:connect-fail-with-socket' if any(t.startswith('S:socket') for t in tk) else 'link:connect-fail-no-socket')
         if v:
             res.failures.append(dict(cls='link-' + v[0], what=v[1], input=dict(kind='link', case=case), observed=r[-1500:],
                                      expected='property text of %s over the composed connection' % pid))
         res.traces_validated += 1
-        lines.append(link_line(case))
-        idx.append(i)
+        if mode != 'direct-wss':
+            lines.append(link_line(case))
+            idx.append(i)
     if model_ok and lines:
         for line, i, m in zip(lines, idx, runner.model_run(lines)):
             if reals[i] != m:
